@@ -10,6 +10,7 @@ import (
 	"regexp"
 	"strings"
 	"sync"
+	"sync/atomic"
 	"syscall"
 	"time"
 )
@@ -22,6 +23,7 @@ type solverPool struct {
 	dumpDir  string
 	totalS   float64
 	nQueries int
+	deadline time.Time
 }
 
 func newSolverPool(jobs int, timeout float64, dump string) *solverPool {
@@ -91,6 +93,9 @@ func runSolver(sp solverSpec, query string, timeout float64) solveOut {
 func (p *solverPool) run(sp solverSpec, query string, timeout float64) solveOut {
 	p.sem <- struct{}{}
 	defer func() { <-p.sem }()
+	if !p.deadline.IsZero() && time.Now().After(p.deadline) {
+		return solveOut{status: "unknown", solver: sp.name, out: "global budget exhausted"}
+	}
 	return runSolver(sp, query, timeout)
 }
 
@@ -245,8 +250,8 @@ func (p *solverPool) solveObl(c *FnCtx, parsed []logLine, o *Obl) OblResult {
 		return res
 	}
 	first := p.timeout
-	if len(splits) > 0 && first > 1 {
-		first = 1
+	if len(splits) > 0 && first > 0.4 {
+		first = 0.4
 	}
 	r := try(nil, first, false)
 	if r.status == "sat" && !o.Smoke {
@@ -270,24 +275,38 @@ func (p *solverPool) solveObl(c *FnCtx, parsed []logLine, o *Obl) OblResult {
 	}
 	// case split (a finite, complete split of a small parameter; not a bound)
 	sp := splits[0]
-	v, ok := c.entryCtr[sp.Var].(SV)
-	if !ok {
+	v, ok := c.splitTerm.(SV)
+	if !ok || v.S.K != KBV {
 		return finish(r, "")
 	}
 	type kres struct {
 		k int
 		r solveOut
 	}
-	n := sp.Hi - sp.Lo + 1
+	n := sp.Hi - sp.Lo + 2 // the last entry is the residual case (value outside lo..hi)
 	outs := make([]solveOut, n)
 	var swg sync.WaitGroup
 	var smu sync.Mutex
-	for k := sp.Lo; k <= sp.Hi; k++ {
+	var abort atomic.Bool
+	for k := sp.Lo; k <= sp.Hi+1; k++ {
 		k := k
 		swg.Add(1)
 		go func() {
 			defer swg.Done()
+			if abort.Load() {
+				smu.Lock()
+				outs[k-sp.Lo] = solveOut{status: "skipped"}
+				smu.Unlock()
+				return
+			}
 			extra := []string{app("=", v.T, bvInt(int64(k), v.S.W))}
+			if k == sp.Hi+1 {
+				lt := "bvult"
+				if v.Signed {
+					lt = "bvslt"
+				}
+				extra = []string{or(app(lt, v.T, bvInt(int64(sp.Lo), v.S.W)), app(lt, bvInt(int64(sp.Hi), v.S.W), v.T))}
+			}
 			q := c.buildQuery(parsed, o, extra, false) + getvals
 			rk := p.solve(q, p.timeout)
 			nq := 1
@@ -305,6 +324,12 @@ func (p *solverPool) solveObl(c *FnCtx, parsed []logLine, o *Obl) OblResult {
 					os.WriteFile(fn, []byte(q2), 0o644)
 				}
 			}
+			if rk.status != "unsat" && !o.Smoke {
+				abort.Store(true)
+			}
+			if rk.status == "sat" && o.Smoke {
+				abort.Store(true)
+			}
 			smu.Lock()
 			outs[k-sp.Lo] = rk
 			res.Queries += nq
@@ -320,7 +345,7 @@ func (p *solverPool) solveObl(c *FnCtx, parsed []logLine, o *Obl) OblResult {
 			}
 		}
 		for i, rk := range outs {
-			if rk.status != "unsat" {
+			if rk.status != "unsat" && rk.status != "skipped" {
 				return finish(rk, fmt.Sprintf("%s=%d", sp.Var, sp.Lo+i))
 			}
 		}
@@ -328,6 +353,11 @@ func (p *solverPool) solveObl(c *FnCtx, parsed []logLine, o *Obl) OblResult {
 	}
 	for i, rk := range outs {
 		if rk.status == "sat" {
+			return finish(rk, fmt.Sprintf("%s=%d", sp.Var, sp.Lo+i))
+		}
+	}
+	for i, rk := range outs {
+		if rk.status != "unsat" && rk.status != "skipped" {
 			return finish(rk, fmt.Sprintf("%s=%d", sp.Var, sp.Lo+i))
 		}
 	}
